@@ -535,7 +535,9 @@ impl CooperativeUtils {
                     } => unreachable!(),
                 }
             })
-            .buffer_unordered(max_concurrent)
+            // `buffered`, not `buffer_unordered`: the result vector is positional
+            // (result i belongs to operation i), so completion order must not leak out
+            .buffered(max_concurrent)
             .collect::<Vec<_>>()
             .await;
 
